@@ -341,10 +341,19 @@ def main():
             build_errors.append((h, err)); log("HARNESS BUILD FAILED %s:\n%s" % (h, err))
         else:
             exe_by_name[h] = exe
-    cdir = os.path.join(VERIF, "corpus", pid)
-    corpus_files = sorted(os.path.join(cdir, f) for f in os.listdir(cdir)) if os.path.isdir(cdir) else []
+    # corpus: minimised earlier failures, stored as case references and re-executed against the real code
+    cpath = os.path.join(VERIF, "corpus", pid + ".json")
+    corpus = json.load(open(cpath)) if os.path.exists(cpath) else []
+    corpus_files = []
     runs = [r for r in cfg["runs"][tier] if r[0] in exe_by_name]
-    total = correspondence(exe_by_name, runs, seed, corpus_files)
+    total = correspondence(exe_by_name, runs, seed, [])
+    for (h, mode, cseed, idx) in corpus:
+        if h in exe_by_name or build_harness(h)[0]:
+            exe_by_name.setdefault(h, build_harness(h)[0])
+            t1 = correspondence(exe_by_name, [(h, mode, idx, 1)], cseed, [])
+            for k in ("cases", "lines", "ok", "nontrivial"):
+                total[k] += t1[k]
+            total["bad"].extend(t1["bad"]); total["hashes_nt"].update(t1["hashes_nt"]); total["crashes"].extend(t1["crashes"])
     bad = [parse_bad(v) for v in total["bad"]]
     bad = [b for b in bad if relevant(pid, cfg, b)]
 
@@ -353,7 +362,7 @@ def main():
         for b in blist:
             if b["kind"] != "PROPFAIL":
                 continue
-            key = (b["detail"].split(" ")[0], b["where"])
+            key = b["where"] or b["raw"][:80]
             if key in done or len(done) >= 5:
                 continue
             done.add(key)
@@ -431,7 +440,7 @@ def main():
             "rule": cfg["rule"], "samples": total["samples"][:3] or [{"note": "no case generated"}],
             "input_distribution": total["stats"], "exhaustive": bool(cfg.get("exhaustive", {}).get(tier, False)),
             "exhaustive_domains": cfg.get("exhaustive_note", {}).get(tier, ""),
-            "corpus_files": [os.path.basename(c) for c in corpus_files],
+            "corpus_cases": len(corpus),
             "mismatches": len(mismatches), "known_findings_hit": known_hit,
             "explanation": cfg.get("explanation", ""),
             "runs": [list(r) for r in runs], "lean": lean_details,
